@@ -1135,7 +1135,7 @@ pub fn run(ctx: &mut Ctx, prop: &str) {
         if i % 64 == 0 {
             ctx.case_begin(&json!({"i": i, "solver": kind.name(), "shape": shape}));
         }
-        eval_history(ctx, prop, &case);
+        crate::report::guarded(ctx, |ctx| eval_history(ctx, prop, &case));
     }
 }
 
